@@ -898,6 +898,39 @@ func CheckOfferParamsForOrder(auctionType AuctionType, offer sidecar.Offer,
 	return nil
 }
 
+// CheckOfferMatchesBid makes sure the channel parameters of a sidecar bid are
+// the ones promised in the offer of its ticket. The recipient of a sidecar
+// channel registers its funding shim and channel acceptor expectations from
+// the offer only, so any deviation makes the channel funding fail. An offer
+// without a lease duration (zero) doesn't restrict the bid's lease duration.
+func CheckOfferMatchesBid(offer sidecar.Offer, bid *Bid) error {
+	switch {
+	case offer.LeaseDurationBlocks != 0 &&
+		offer.LeaseDurationBlocks != bid.LeaseDuration:
+
+		return fmt.Errorf("invalid lease duration %d, must match "+
+			"sidecar ticket's lease duration %d", bid.LeaseDuration,
+			offer.LeaseDurationBlocks)
+
+	case offer.PushAmt != bid.SelfChanBalance:
+		return fmt.Errorf("invalid self chan balance %v, must match "+
+			"sidecar ticket's push amount %v", bid.SelfChanBalance,
+			offer.PushAmt)
+
+	case offer.UnannouncedChannel != bid.UnannouncedChannel:
+		return fmt.Errorf("invalid unannounced channel flag %v, must "+
+			"match sidecar ticket's flag %v",
+			bid.UnannouncedChannel, offer.UnannouncedChannel)
+
+	case offer.ZeroConfChannel != bid.ZeroConfChannel:
+		return fmt.Errorf("invalid zero conf channel flag %v, must "+
+			"match sidecar ticket's flag %v", bid.ZeroConfChannel,
+			offer.ZeroConfChannel)
+	}
+
+	return nil
+}
+
 // ValidateSelfChanBalance makes sure that all conditions to use the
 // SelfChanBalance field on a bid order are met.
 func (b *Bid) ValidateSelfChanBalance() error {
